@@ -399,7 +399,25 @@ pub fn c18(em: &mut Emit, thorough: bool, _seed: u64) {
         ] {
             for truncate in [false, true] {
                 write_file(&path, size);
-                let crf = Crf::new(std::fs::File::open(&path).unwrap(), HeaderMap::new()).unwrap();
+                // the headers the entity was constructed with (a repeated name included) are
+                // passed on by `add_headers`
+                let ent_headers: Vec<(String, Vec<u8>)> = if a % 2 == 0 {
+                    vec![]
+                } else {
+                    vec![
+                        ("x-ent-file".to_string(), b"one".to_vec()),
+                        ("x-ent-file".to_string(), b"two".to_vec()),
+                        ("cache-control".to_string(), b"max-age=1".to_vec()),
+                    ]
+                };
+                let mut hm = HeaderMap::new();
+                for (n, v) in &ent_headers {
+                    hm.append(
+                        http::header::HeaderName::from_bytes(n.as_bytes()).unwrap(),
+                        HeaderValue::from_bytes(v).unwrap(),
+                    );
+                }
+                let crf = Crf::new(std::fs::File::open(&path).unwrap(), hm).unwrap();
                 let req = http::Request::get("/")
                     .header("range", HeaderValue::from_str(range).unwrap())
                     .body(())
@@ -455,6 +473,7 @@ pub fn c18(em: &mut Emit, thorough: bool, _seed: u64) {
                     let mut e = HEntity::new(size);
                     e.etag = file_etag.clone();
                     e.mtime = file_mtime;
+                    e.headers = ent_headers.clone();
                     let (hdrs, now) = head;
                     em.case(
                         &serve_line(&q, &e, now),
